@@ -1179,7 +1179,8 @@ func (db *DB) Repair(of Object) (err error) {
 		}
 	}
 
-	return nil
+	// repaired index has to be commited as after any other modification
+	return db.commit(of)
 }
 
 // Close closes gently the DB by flushing any pending async writes
